@@ -65,7 +65,8 @@ def generate(rng, tier):
 
 def judge(case, ir, mr):
     tags = []
-    bad, actual, det = LB.base_judge(case, ir, mr, tags)
+    mr, mt = LB.split(mr)
+    bad, actual, det = LB.base_judge(case, ir, mr, tags, mt)
     if bad:
         return bad
     st = case['files'][0]
